@@ -12,6 +12,18 @@
   (`ptmp, new_kv = helpers.knot_refinement(…)` inside `for v in range(size_v)` / `for u in range(size_u)`):
   `Shape.lastIso`.  The index-form / specification-level operations are proved equal to these under the
   hypotheses of the object-level theorems (`Lemmas/InsertCodedObj.lean`, `Lemmas/RefineCodedObj.lean`).
+
+  WHICH SPAN SEARCH (statement audit 5, I3): like `insertKnotDir` (`Model/Shape.lean`), `removeKnotDir`
+  (`Model/Knots2.lean`), `a54Init` / `a54InitRows` and the volume-rows wrappers, these models call `findSpanLinear`,
+  the search WITHOUT the step back that the F-01b repair added to /repo's `find_span_linear` (the literal model of
+  the repaired routine is `findSpanLinearR`, `Model/SpanR.lean`).  The two agree unless the parameter is the domain
+  end `u = U_n` of a knot vector whose last domain span is empty (`U_{n-1} = U_n`; `findSpanLinearR_eq_of_nonempty`,
+  `findSpanLinearR_eq_of_lt`).  Every theorem about these models excludes that input (`KvWF.last`: non-empty last
+  span; `DirReqOk.hi`: parameter strictly below `U_n`), so under their hypotheses it does not matter which search is
+  called.  Outside them the transcription is NOT literal: real `insert_knot(c, [5], [1])` on the cubic
+  `U = [0,1,2,3,4,5,5,6,7,8]` (span 4 after the step back) and this model (span 5) return different nets.  The
+  driver ops therefore answer `OUT` (outside the model, `Drv.spanOutS` in `Driver/Shape.lean`) for exactly those
+  insertion / removal requests, and the harness judges them with the oracle alone.
 -/
 import NurbsVerif.Model.Shape
 import NurbsVerif.Model.Knots2
